@@ -44,17 +44,25 @@ def make_remote(ip, ctx, toggle, supported, sep=False):
     mint = sym_int(ctx, "min_temp", -100, 100)
     maxt = sym_int(ctx, "max_temp", -100, 100)
     feats = PyDict({m: PyDict({"swing": False, "fan_levels": PySet(), "temperature_control": False}) for m in supported})
-    r = Obj(cls(R + "SwitcherBreezeRemote"), {
-        "_min_temp": mint, "_max_temp": maxt, "_on_off_type": toggle, "_remote_id": "REMOTE01", "_ir_wave_map": W,
-        "_modes_features": feats, "_separated_swing_command": sep})
-    r.preexisting = True
+    # the object is created by the real constructor on an empty IR set (so that every attribute the current source
+    # initialises exists), then its IR data and capabilities are replaced by the symbolic / uninterpreted ones
+    r = ip.instantiate(cls(R + "SwitcherBreezeRemote"),
+                       [PyDict({"IRSetID": "ELEC7022" if sep else "REMOTE01", "OnOffType": 1 if toggle else 0, "IRWaveList": PyList([])})], {}, ctx)
+    r.attrs.update({"_min_temp": mint, "_max_temp": maxt, "_on_off_type": toggle, "_ir_wave_map": W,
+                    "_modes_features": feats, "_separated_swing_command": sep})
+    from pyvc.interp import mark_preexisting
+    mark_preexisting(r)
+    ctx.ghost.heap_writes.clear()
     ctx.inputs["toggle"] = toggle
     return r, W, mint, maxt
 
 
 def command_obligations(ip, ctx, base, ob, W, key):
-    """the built command must carry W[key]"""
-    obs = [Obligation(base + "/returns_command", ctx, ob[0] == "ret", note=str(ob[1]) if ob[0] == "exc" else "")]
+    """the built command must carry W[key]; building it must not leave anything behind on the remote (a remembered command
+    would make a later call with another previous state wrong)"""
+    obs = [Obligation(base + "/returns_command", ctx, ob[0] == "ret", note=str(ob[1]) if ob[0] == "exc" else ""),
+           Obligation(base + "/assigns_nothing", ctx, not ctx.ghost.heap_writes and not ctx.ghost.module_writes,
+                      note=str([(type(o).__name__, a) for o, a in ctx.ghost.heap_writes][:2]))]
     if ob[0] != "ret":
         return obs
     e = W.entry(key, ctx)
